@@ -107,7 +107,7 @@ def _normalised_helper(fn: ast.FunctionDef) -> Optional[ast.FunctionDef]:
     for n in ast.walk(fn):
         if isinstance(n, (ast.Yield, ast.YieldFrom, ast.Global, ast.Nonlocal, ast.AsyncFunctionDef)):
             return None
-        if isinstance(n, (ast.FunctionDef, ast.Lambda)) and n is not fn:
+        if isinstance(n, ast.FunctionDef) and n is not fn:
             return None
     body = list(fn.body)
     doc = []
@@ -130,7 +130,7 @@ def _single_exit(fn: ast.FunctionDef) -> bool:
     for n in ast.walk(fn):
         if isinstance(n, (ast.Yield, ast.YieldFrom, ast.Global, ast.Nonlocal, ast.AsyncFunctionDef)):
             return False
-        if isinstance(n, (ast.FunctionDef, ast.Lambda)) and n is not fn:
+        if isinstance(n, ast.FunctionDef) and n is not fn:
             return False
     if len(rets) > 1:
         return False
@@ -146,6 +146,12 @@ class _Rename(ast.NodeTransformer):
     def visit_Name(self, node):
         if node.id in self.m:
             return ast.copy_location(ast.Name(id=self.m[node.id], ctx=node.ctx), node)
+        return node
+
+    def visit_arg(self, node):
+        # parameters of lambdas inside the renamed code (the function's own parameters are bound, not renamed, by the caller)
+        if node.arg in self.m:
+            node.arg = self.m[node.arg]
         return node
 
 
@@ -1099,6 +1105,36 @@ class _ConstFold(ast.NodeTransformer):
             return node.body if node.test.value else node.orelse
         return node
 
+    def visit_BoolOp(self, node):
+        node = self.generic_visit(node)
+        is_and = isinstance(node.op, ast.And)
+        vals = []
+        for v in node.values:
+            if isinstance(v, ast.Constant) and isinstance(v.value, bool):
+                if v.value == (not is_and):          # False in an `and`, True in an `or`: decides (operands before it are kept only
+                    if not vals:                     # when there are none: they might have effects)
+                        self.changed = True
+                        return ast.copy_location(ast.Constant(value=v.value), node)
+                    vals.append(v)
+                    break
+                self.changed = True                  # neutral element: dropped
+                continue
+            vals.append(v)
+        if not vals:
+            self.changed = True
+            return ast.copy_location(ast.Constant(value=is_and), node)
+        if len(vals) == 1:
+            return vals[0]
+        node.values = vals
+        return node
+
+    def visit_UnaryOp(self, node):
+        node = self.generic_visit(node)
+        if isinstance(node.op, ast.Not) and isinstance(node.operand, ast.Constant) and isinstance(node.operand.value, bool):
+            self.changed = True
+            return ast.copy_location(ast.Constant(value=not node.operand.value), node)
+        return node
+
     def visit_BinOp(self, node):
         node = self.generic_visit(node)
         seq = (ast.Tuple, ast.List)
@@ -1622,13 +1658,22 @@ def _inline_decorators(tree: ast.Module, known: Set[str]) -> int:
         if w.args.vararg or w.args.kwarg:
             # pure forwarding of (*args, **kwargs): use g's own parameters
             va, ka = (w.args.vararg.arg if w.args.vararg else None), (w.args.kwarg.arg if w.args.kwarg else None)
-            if w.args.args or w.args.kwonlyargs:
+            lead = [a.arg for a in w.args.args]          # explicit leading parameters: (rdms, *args, **kwargs)
+            if w.args.kwonlyargs or len(lead) > len(g.args.args):
                 return
             for c in calls:
-                fw_ok = all(isinstance(a, ast.Starred) and isinstance(a.value, ast.Name) and a.value.id == va for a in c.args) and \
+                head = c.args[:len(lead)]
+                fw_ok = len(c.args) >= len(lead) and all(isinstance(a, ast.Name) and a.id == nm for a, nm in zip(head, lead)) and \
+                    all(isinstance(a, ast.Starred) and isinstance(a.value, ast.Name) and a.value.id == va for a in c.args[len(lead):]) and \
                     all(k.arg is None and isinstance(k.value, ast.Name) and k.value.id == ka for k in c.keywords)
                 if not fw_ok:
                     return
+            # the wrapper's names for the leading parameters become g's own names
+            ren = {nm: ga.arg for nm, ga in zip(lead, g.args.args) if nm != ga.arg}
+            if ren:
+                if set(ren.values()) & (_locals_of(w) - set(lead)):
+                    return
+                w.body = [_Rename(ren).visit(st) for st in w.body]
             used_elsewhere = [x for x in ast.walk(w) if isinstance(x, ast.Name) and x.id in (va, ka)
                               and not any(any(x is y for y in ast.walk(c)) for c in calls)]
             if used_elsewhere or g.args.vararg or g.args.kwarg:
